@@ -326,7 +326,15 @@ func (x *c14Run) roundHostLeft(r c14Round, srv *c14Server) {
 		"racing_joins_no_verdict": len(racing), "ms_since_create": c14ms(c14Now() - sess.Start), "lifetime": cfg.Timeout.String()}
 	x.st.sample("hostleft", obs)
 	if admitted > 0 {
-		detail := map[string]any{"obs": obs, "first_admitted": firstAdmitted.brief()}
+		var lateAll []map[string]any
+		for _, j := range late {
+			b := j.brief()
+			b["peer"] = j.PeerID
+			b["start_ms_after_point"] = c14ms(j.Start - point)
+			lateAll = append(lateAll, b)
+		}
+		detail := map[string]any{"obs": obs, "first_admitted": firstAdmitted.brief(), "first_admitted_peer": firstAdmitted.PeerID, "host_peer": host.PeerID, "host_close": host.WS.CloseInfo(), "point_ms": c14ms(point), "session": sess.ID,
+			"late_joins": lateAll, "server_log_tail": srv.LogTail(60)}
 		if r.Variant == "graceful" {
 			e.R.Violate("joincode:admitted-after-host-left", fmt.Sprintf("%d of %d joins that started after the host had disconnected (%s; first one %.1f ms after that point) were admitted with the old join code", admitted, len(late), how, c14ms(firstAdmitted.Start-point)), caseSpec, detail)
 		} else {
